@@ -1,2 +1,189 @@
--- Driver stub for C13 (replaced when the property's model driver is written).
-def main : IO Unit := IO.println "C13: no driver yet"
+import TsVerif.Common.IO
+import TsVerif.C13.Judge
+/-!
+Driver for C13 (and, for the `L`/`D` lines, C09).  Protocol: see harness/csrc/cunit_c13.c
+(function level, answers must equal the C program's) and harness/src/bin/c13.rs (system level):
+  `case <cid> <lang>`, `doc <hex>`, `ranges <n> (6 nums)*n`, `verdict ok|err <i>`,
+  `reported <n> …`, `concat <hex>`, `eff <hex>`, `treeR`/`treeC`/`treeE` dump `end`, `run`
+    → `<cid> setter=… reported=… concat=… shape=… pos=… leaf=… cause=… …`
+-/
+open TsVerif TsVerif.Lex TsVerif.C13 TsVerif.Utf TsGen
+
+def rangeOf : List Nat → Option (TSRange × List Nat)
+  | sb :: sr :: sc :: eb :: er :: ec :: rest =>
+    some ({ start_byte := sb, end_byte := eb, start_point := ⟨sr, sc⟩, end_point := ⟨er, ec⟩ }, rest)
+  | _ => none
+
+def rangesOf : Nat → List Nat → Option (List TSRange × List Nat)
+  | 0, ws => some ([], ws)
+  | k + 1, ws => do
+    let (r, ws) ← rangeOf ws
+    let (rs, ws) ← rangesOf k ws
+    return (r :: rs, ws)
+
+/-- The chunk provider of `cunit_c13.c`. -/
+def mkRead (doc : Array Nat) (chunking : String) : Read := fun byte =>
+  if byte ≥ doc.size then []
+  else
+    let e0 := doc.size
+    let e1 := if chunking.startsWith "c" then
+        let k := (chunking.drop 1).toString.toNat?.getD 0
+        if k != 0 && byte + k < e0 then byte + k else e0
+      else e0
+    let e2 := if chunking.startsWith "s" then
+        ((chunking.drop 1).toString.splitOn ",").foldl (fun e s =>
+          match s.toNat? with
+          | some p => if p > byte && p < e then p else e
+          | none => e) e1
+      else e1
+    (doc.extract byte e2).toList
+
+def fmtState (l : Lexer) : String :=
+  s!"{l.pos.bytes},{l.pos.extent.row},{l.pos.extent.column},{l.idx},{l.lookahead},{l.laSize},{if l.eof then 1 else 0}," ++
+  s!"{l.tokStart.bytes},{l.tokStart.extent.row},{l.tokStart.extent.column},{l.tokEnd.bytes},{l.tokEnd.extent.row},{l.tokEnd.extent.column}," ++
+  s!"{l.chunkStart},{l.chunk.length},{if l.colValid then 1 else 0},{l.colValue}"
+
+def runScript (read : Read) (l : Lexer) (ops : List String) : List String :=
+  let rec go (ops : List String) (l : Lexer) (laEnd : Nat) (acc : List String) : List String :=
+    match ops with
+    | [] => acc.reverse
+    | op :: rest =>
+      if op == "S" then let l := l.start read; go rest l laEnd (fmtState l :: acc)
+      else if op == "A" then let l := l.advance read false; go rest l laEnd (fmtState l :: acc)
+      else if op == "K" then let l := l.advance read true; go rest l laEnd (fmtState l :: acc)
+      else if op == "M" then let l := l.markEnd; go rest l laEnd (fmtState l :: acc)
+      else if op == "F" then
+        let (l, e) := l.finish laEnd
+        go rest l e ((fmtState l ++ s!",{e}") :: acc)
+      else if op.startsWith "R:" then
+        match (op.splitOn ":").map natOf with
+        | [_, b, r, c] => let l := l.reset ⟨b, ⟨r, c⟩⟩; go rest l laEnd (fmtState l :: acc)
+        | _ => go rest l laEnd acc
+      else go rest l laEnd acc
+  go ops l 0 []
+
+def runL (line : String) : String :=
+  match line.splitOn " | " with
+  | [head, script] =>
+    match head.splitOn " " with
+    | "L" :: id :: hx :: ch :: n :: nums =>
+      let doc := (if hx == "-" then [] else unhexBytes hx).toArray
+      match rangesOf (natOf n) (nums.map natOf) with
+      | some (rs, _) =>
+        let l : Lexer := {}
+        let (l, ok) := l.setIncludedRanges rs
+        let l := l.setInput
+        let tr := runScript (mkRead doc ch) l ((script.splitOn " ").filter (· ≠ ""))
+        s!"{id} set={if ok then 1 else 0} trace={";".intercalate tr}"
+      | none => s!"{id} set=BADINPUT"
+    | _ => "? set=BADINPUT"
+  | [head] =>
+    -- empty script
+    match head.splitOn " " with
+    | "L" :: id :: _ => s!"{id} set=? trace="
+    | _ => "? set=BADINPUT"
+  | _ => "? set=BADINPUT"
+
+structure St where
+  id : String := ""
+  lang : String := ""
+  doc : Array Nat := #[]
+  ranges : List TSRange := []
+  verdict : String := ""
+  reported : List TSRange := []
+  concat : List Nat := []
+  eff : List Nat := []
+  hasE : Bool := false
+  treeR : Array String := #[]
+  treeC : Array String := #[]
+  treeE : Array String := #[]
+  mode : Nat := 0
+
+def fmtR (rs : List TSRange) : String :=
+  ",".intercalate (rs.map fun r => s!"{r.start_byte}-{r.end_byte}")
+
+def runCase (s : St) : String :=
+  let n := s.ranges.length
+  -- setter verdict against the specification
+  let specOk := n == 0 || validFrom 0 s.ranges
+  let specVerdict := if specOk then "ok" else
+    match firstBad s.ranges with
+    | some i => s!"err {i}"
+    | none => "err 0"
+  let setter := if s.verdict == specVerdict then "ok" else s!"FAIL impl:{s.verdict} spec:{specVerdict}"
+  if !specOk then
+    s!"{s.id} setter={setter} reported=- concat=- shape=- pos=- cause=- accepted=0 nranges={n}"
+  else
+    let given := if n == 0 then [DEFAULT_RANGE] else s.ranges
+    let reported := if decide (s.reported = given) then "ok" else s!"FAIL tree:{fmtR s.reported} given:{fmtR given}"
+    let es := effRanges given s.doc.size
+    let docL := s.doc.toList
+    let myConcat := es.foldl (fun acc e => acc ++ (s.doc.extract e.a e.b).toList) []
+    let concatOk := if decide (myConcat = s.concat) then "ok" else "FAIL harness concatenation differs from the model's"
+    let onB := onCharBoundaries es docL
+    let myEff := effectiveText given s.doc
+    let effOk := !s.hasE || decide (myEff = s.eff)
+    match parseDump s.treeR.toList, parseDump s.treeC.toList with
+    | some r, some c =>
+      let emp := emptyPositions given s.doc.size
+      let st := cmpTree es emp s.doc true r.root c.root length_zero length_zero {}
+      let stE := if s.hasE then
+          match parseDump s.treeE.toList with
+          | some e => (cmpTree es emp s.doc false r.root e.root length_zero length_zero {}).fail
+          | none => some "no treeE"
+        else st.fail
+      let err := hasError r.root || hasError c.root
+      let (shape, pos) := match st.fail with
+        | none => if st.quirks > 0 then ("ok", s!"FAIL {st.quirkMsg}") else ("ok", "ok")
+        | some m => if m.startsWith "shape" then (s!"FAIL {m}", "-") else ("ok", s!"FAIL {m}")
+      -- classification of a failure (most specific first):
+      -- * character splitting: some effective range boundary is not a character boundary AND the ranged
+      --   tree has the shape of the parse of the text the lexer really consumed (E), which the model reproduces;
+      -- * empty range: the only deviations are boundaries sitting on an empty given range between the two images of a seam;
+      -- * error recovery: one of the two trees contains ERROR/MISSING nodes (recovery costs count excluded bytes);
+      -- a scanner that reads the column legitimately answers differently on the concatenation (columns differ):
+      -- such pairs are outside the equality claim (DESIGN §7 C13 M); they are counted, not judged
+      let col := anyColumn r.root || anyColumn c.root
+      let (shape, pos) := if col && st.fail.isSome then ("ok", "ok") else (shape, pos)
+      let cause := if col && st.fail.isSome then "-"
+        else if st.fail.isNone && st.quirks == 0 then "-"
+        else if !onB && s.hasE && effOk && stE.isNone then "char-splitting-range-boundary"
+        else if st.fail.isNone then "empty-range-boundary"
+        else if err then "error-recovery"
+        else "other"
+      s!"{s.id} setter={setter} reported={reported} concat={concatOk} shape={shape} pos={pos} cause={cause} accepted=1 err={if err then 1 else 0} nranges={n} neff={es.length} onb={if onB then 1 else 0} effok={if effOk then 1 else 0} nodes={st.nodes} leaves={st.leaves} gapleaves={st.gapLeaves} quirks={st.quirks} col={if col then 1 else 0}"
+    | _, _ => s!"{s.id} setter={setter} reported={reported} concat={concatOk} shape=BADINPUT pos=BADINPUT cause=other accepted=1"
+
+def step (s : St) (line : String) : IO St := do
+  if s.mode != 0 then
+    if line == "end" then return { s with mode := 0 }
+    else if s.mode == 1 then return { s with treeR := s.treeR.push line }
+    else if s.mode == 2 then return { s with treeC := s.treeC.push line }
+    else return { s with treeE := s.treeE.push line }
+  if line.startsWith "L " then IO.println (runL line); return s
+  match line.splitOn " " with
+  | ["D", id, hx] =>
+    let bytes := if hx == "-" then [] else unhexBytes hx
+    let (cp, n) := if bytes.isEmpty then (DECODE_ERROR, 0) else decodeUtf8 bytes
+    IO.println s!"{id} dec={cp},{n}"; return s
+  | ["case", id, lang] => return { id := id, lang := lang }
+  | ["doc", h] => return { s with doc := (if h == "-" then [] else unhexBytes h).toArray }
+  | "ranges" :: n :: ws =>
+    match rangesOf (natOf n) (ws.map natOf) with
+    | some (rs, _) => return { s with ranges := rs }
+    | none => return s
+  | "verdict" :: ws => return { s with verdict := " ".intercalate ws }
+  | "reported" :: n :: ws =>
+    match rangesOf (natOf n) (ws.map natOf) with
+    | some (rs, _) => return { s with reported := rs }
+    | none => return s
+  | ["concat", h] => return { s with concat := if h == "-" then [] else unhexBytes h }
+  | ["eff", h] => return { s with eff := (if h == "-" then [] else unhexBytes h), hasE := true }
+  | ["treeR"] => return { s with mode := 1 }
+  | ["treeC"] => return { s with mode := 2 }
+  | ["treeE"] => return { s with mode := 3 }
+  | ["run"] => IO.println (runCase s); return s
+  | _ => return s
+
+def main : IO Unit := do
+  let _ ← foldLines (← IO.getStdin) ({} : St) step
